@@ -91,7 +91,8 @@ func (uc UseCase) createServerFromAddress(
 	ctx context.Context,
 	address addr.Addr,
 ) (server.Server, error) {
-	svr, err := server.NewFromAddr(address, address.Port+1)
+	// the query port is provisional until it is discovered; keep the guess within the valid range
+	svr, err := server.NewFromAddr(address, min(address.Port+1, 65535))
 	if err != nil {
 		return server.Blank, err
 	}
